@@ -261,9 +261,9 @@ def register(R: Registry):
     R.add(f"{SWC}:DictSWC.copy", prop="C09", pure_inline=True,
           variants={"a-Tree-(Tree.copy)": lambda S: dict(self=sym_tree(S, "t", extra_cols=("level",))),
                     "a-plain-DictSWC": lambda S: dict(self=sym_tree(S, "t", cls=__import__("swcgeom.core.swc", fromlist=["DictSWC"]).DictSWC))},
-          ensures=[("equal-content-in-fresh-storage", copy_post),
-                   ("no-column-of-the-copy-shares-storage-with-the-original-(extra-columns-included)", copy_shares_nothing),
+          ensures=[("no-column-of-the-copy-shares-storage-with-the-original-(extra-columns-included)", copy_shares_nothing),
                    ("the-copy-has-its-own-column-table-and-comment-list", copy_own_containers),
+                   ("equal-content-in-fresh-storage", copy_post),
                    ("original-untouched", lambda E, v, o: unchanged(E, v["self"], o["self"]))])
 
     register_path(R, path_obj)
